@@ -24,7 +24,7 @@ RULE = ("lock-step differential against itertools.groupby: the same operation se
         "consumed, or skipped; distinct = (input, key, ops)")
 ASSUMPTIONS = ["itertools.groupby of the running interpreter is the reference", "keys with reflexive equality only"]
 EXHAUSTIVE = {"quick": False, "thorough": False}
-N_RANDOM = {"quick": 24000, "thorough": 800000}
+N_RANDOM = {"quick": 100000, "thorough": 6000000}
 ENUM_INPUTS = [[], [0], [0, 0], [0, 1], [0, 0, 1], [0, 1, 1], [0, 1, 0], [0, 0, 1, 1], [0, 1, 1, 0], [0, 0, 0, 1, 1],
                [0, 1, 0, 1, 0], [1, 1, 0, 0, 1]]
 OPS = ["adv", "g-1", "g-2", "g0"]
